@@ -5,7 +5,7 @@
 set -e
 VERIF="$(cd "$(dirname "$0")/.." && pwd)"
 SCR="$(mktemp -d /tmp/gbsa-scratch.XXXXXX)"
-trap 'rm -rf "$SCR"; rm -rf "$VERIF/.cache/"*"$(printf %s "$SCR" | sha1sum | cut -c1-8)"*' EXIT
+trap 'rm -rf "$SCR"' EXIT
 mkdir -p "$SCR/repo"
 ( cd /repo && git ls-files -z | xargs -0 cp --parents -t "$SCR/repo" )
 cp -r /repo/.git "$SCR/repo/.git"
